@@ -74,6 +74,78 @@ def check(ctx):
                         C.issue('levy-not-mantegna', 'oracle', dict(rp, at=q, fresh_process=True), got=got.tolist(), reference=_ref(beta, g1, g2).tolist())
                         break
             C.case(key=('levy-sequence', tuple(seq)), nontrivial=True, kind='levy-sequence')
+        # ---------------- every shape NumPy accepts as `size` is a shape that can be requested: no element at all (0, NumPy
+        # zeros, tuples with a zero axis), the scalar shape (), one-element shapes, NumPy integers, three axes.  The wrappers
+        # are thin: shape, dtype, values and the number of draws consumed (seen through the next draw of the stream) are
+        # those of np.random.uniform / normal for the same size after the same seed
+        def _same_bits(x, y):
+            x, y = np.asarray(x), np.asarray(y)
+            return x.shape == y.shape and x.dtype == y.dtype and [fbits(v) for v in x.reshape(-1)] == [fbits(v) for v in y.reshape(-1)]
+        sizes = [0, np.int64(0), np.int32(0), (), (0,), (2, 0), (0, 3), (3, 0, 2), 1, (1,), (1, 1), np.int64(3), (np.int64(2), 3), (2, 1, 3), 4]
+        for q, size in enumerate(sizes):
+            seed = 4100 + q
+            want = tuple(int(s_) for s_ in size) if isinstance(size, tuple) else (int(size),)
+            for low, high in ((0.0, 1.0), (-2.0, 5.0)):
+                rp = dict(how='uniform-any-size', low=low, high=high, size=repr(size), seed=seed)
+                try:
+                    np.random.seed(seed)
+                    a = r.generate_uniform_random_number(low, high, size)
+                    nxt = np.random.uniform(0.0, 1.0)
+                    np.random.seed(seed)
+                    ref = np.random.uniform(low, high, size)
+                    nxt_ref = np.random.uniform(0.0, 1.0)
+                except Exception as ex:
+                    C.issue('uniform-raised', 'oracle', rp, error=type(ex).__name__ + ': ' + str(ex)[:80])
+                    continue
+                if tuple(np.shape(a)) != want:
+                    C.issue('uniform-shape', 'oracle', rp, shape=list(np.shape(a)), requested=list(want))
+                elif not _same_bits(a, ref):
+                    C.issue('uniform-not-numpy-draws', 'oracle', rp, got=np.asarray(a).tolist(), reference=np.asarray(ref).tolist())
+                if np.any(np.asarray(a) < low) or np.any(np.asarray(a) > high):
+                    C.issue('uniform-out-of-range', 'oracle', rp, values=np.asarray(a).tolist())
+                if nxt != nxt_ref:
+                    C.issue('uniform-stream-consumption', 'oracle', rp, elements_requested=int(np.prod(want)))
+                C.case(key=('u-size', repr(size), low), nontrivial=True, kind='uniform-any-size')
+            for mu, sd in ((0.0, 1.0), (1.0, 2.0)):
+                rp = dict(how='normal-any-size', mean=mu, sd=sd, size=repr(size), seed=seed)
+                try:
+                    np.random.seed(seed)
+                    b = r.generate_gaussian_random_number(mu, sd, size)
+                    nxt = np.random.uniform(0.0, 1.0)
+                    np.random.seed(seed)
+                    ref = np.random.normal(mu, sd, size)
+                    nxt_ref = np.random.uniform(0.0, 1.0)
+                except Exception as ex:
+                    C.issue('normal-raised', 'oracle', rp, error=type(ex).__name__ + ': ' + str(ex)[:80])
+                    continue
+                if tuple(np.shape(b)) != want:
+                    C.issue('normal-shape', 'oracle', rp, shape=list(np.shape(b)), requested=list(want))
+                elif not _same_bits(b, ref):
+                    C.issue('normal-not-numpy-draws', 'oracle', rp, got=np.asarray(b).tolist(), reference=np.asarray(ref).tolist())
+                if nxt != nxt_ref:
+                    C.issue('normal-stream-consumption', 'oracle', rp, elements_requested=int(np.prod(want)))
+                C.case(key=('n-size', repr(size), mu), nontrivial=True, kind='normal-any-size')
+            # Levy steps of that size: Mantegna's formula on the two Gaussian draws of that size, nothing more consumed
+            for beta in (1.5, 0.7):
+                rp = dict(how='levy-any-size', beta=beta, size=repr(size), seed=seed)
+                try:
+                    np.random.seed(seed)
+                    step = d.generate_levy_distribution(beta, size)
+                    nxt = np.random.uniform(0.0, 1.0)
+                    np.random.seed(seed)
+                    g1 = np.random.normal(0.0, 1.0, size)
+                    g2 = np.random.normal(0.0, 1.0, size)
+                    nxt_ref = np.random.uniform(0.0, 1.0)
+                except Exception as ex:
+                    C.issue('levy-raised', 'oracle', rp, error=type(ex).__name__ + ': ' + str(ex)[:80])
+                    continue
+                if tuple(np.shape(step)) != want:
+                    C.issue('levy-shape', 'oracle', rp, shape=list(np.shape(step)), requested=list(want))
+                elif not np.allclose(_ref(beta, g1, g2), step, rtol=1e-12, atol=0, equal_nan=True):
+                    C.issue('levy-not-mantegna', 'oracle', rp, got=np.asarray(step).tolist(), reference=np.asarray(_ref(beta, g1, g2)).tolist())
+                if nxt != nxt_ref:
+                    C.issue('levy-stream-consumption', 'oracle', rp, elements_requested=int(np.prod(want)))
+                C.case(key=('l-size', repr(size), beta), nontrivial=True, kind='levy-any-size')
         reps = 120 if ctx['tier'] == 'quick' else 2000
         for k in range(reps):
             seed = C.rng.randrange(1 << 30)
